@@ -2,6 +2,7 @@ import PGA.Drv.C05
 /-! Driver ops for C06.
 `c06.est`: {"cors": [[<spec>, count], ...], "T": rat, "want": [...]} ↦ {"mk": "ok" | <err> | "constituent:<err>", "range": ..., "cp"/"h"/"s"/"g": out}
 `c06.raw_set_range`: {"cor": <raw spec>, "newrange": [lo, hi], "T": rat, "want": [...]} ↦ {"mk", "set": "ok" | <err>, "range", outs}
+`c06.check_arr`: {"range": null | [lo, hi], "Ts": [rat, ...]} ↦ {"ok": bool}  (`check_range` on an array of temperatures)
 `c06.range`: {"ranges": [null | [lo, hi], ...]} ↦ {"range": null | [lo, hi], "accepted": bool}  (the fold of group_data.py:49-77 alone) -/
 namespace PGA.Drv.C06
 open Lean PGA.Drv PGA.Thermo PGA.Drv.C05
@@ -63,6 +64,10 @@ def handle (op : String) (j : Json) : Option (Except String Json) :=
                               want.map fun w => (w, jout (rawFns a T w)))
         | _, _ => throw "construction depends on oracle values"
       | _, _ => throw "raw correlation needs href and sref"
+  | "c06.check_arr" => some do
+      let r ← optRange j "range"
+      let ts ← ratList (← j.getObjVal? "Ts")
+      pure <| Json.mkObj [("ok", Json.bool (match checkRangeArr r ts with | .ok _ => true | .error _ => false))]
   | "c06.range" => some do
       let a ← arr j "ranges"
       let rs ← a.toList.mapM fun e => match e with
